@@ -46,7 +46,8 @@ def case_text(fn, args):
 def impl_case(case):
     """worker: the arguments on their own (what the body will receive) and the whole call"""
     fn, args = case["fn"], case["args"]
-    return dict(args=[C.observe(a)["raw"] for a in args], obs=C.observe(case_text(fn, args)))
+    return dict(args=[C.observe(a)["raw"] for a in args], obs=C.observe(case_text(fn, args)),
+                deg=[C.observe(a[:-4])["raw"] if a.endswith(" deg") else None for a in args])
 
 
 def impl_text(text):
@@ -275,6 +276,9 @@ for fn, args in json.load(sys.stdin):
         big = max([abs(n).bit_length() - d.bit_length() for n, d in a] + [0])
         mp.prec = 260 + (big + 64 if fn in ("sin", "cos", "tan") else 0)
         x = val(*a[0])
+        if fn in ("sind", "cosd", "tand"):
+            x = x * mp.pi / 180
+            fn = fn[:-1]
         if fn == "sin": v = mp.sin(x)
         elif fn == "cos": v = mp.cos(x)
         elif fn == "tan": v = mp.tan(x)
@@ -710,6 +714,16 @@ def judge(case, vals, obs, plan, wrap, ref, ref_exact):
 
 # ------------------------------------------------------------------ run
 def run(ctx):
+    import sys
+    old = sys.get_int_max_str_digits()
+    sys.set_int_max_str_digits(0)       # exact powers of 300-digit operands are longer than CPython's default limit
+    try:
+        _run(ctx)
+    finally:
+        sys.set_int_max_str_digits(old)
+
+
+def _run(ctx):
     rep, tier, seed = ctx["report"], ctx["tier"], ctx["seed"]
     rng = random.Random(seed * 104729 + 16)
     n = 60 if tier == "quick" else 1000
@@ -770,7 +784,7 @@ def run(ctx):
         if any(v is None for v in vals):
             skipped += 1          # an argument does not evaluate to a number/quantity on its own: not a call of the function
             continue
-        c["vals"], c["obs"], c["argenc"] = vals, o["obs"], o["args"]
+        c["vals"], c["obs"], c["argenc"], c["deg"] = vals, o["obs"], o["args"], o["deg"]
         live.append(c)
 
     for c in live:
@@ -803,13 +817,20 @@ def run(ctx):
         if unrepresentable(c["plan"], None):
             calls.append((c["plan"][1], args))
             where.append((i, "ref_exact"))
+    # `deg` converts: for moderate angles the result is also compared with the function of the TRUE angle d*pi/180
+    for i, c in enumerate(live):
+        if c["fn"] in ("sin", "cos", "tan") and c["deg"][0] and c["plan"][0] == "C":
+            d = dec_val(c["deg"][0])
+            if d is not None and d[0] == "n" and abs(d[2]) <= 720:
+                calls.append((c["fn"] + "d", [d[2]]))
+                where.append((i, "ref_deg"))
     refs = reference(calls, ctx["rundir"])
     C.log("c16: %d reference values %.1fs" % (len(calls), time.time() - t0))
     for (i, key), r in zip(where, refs):
         live[i][key] = r
 
     hist, kinds_hist, samples, nontrivial = {}, {}, [], set()
-    disagreements = display_escapes = law_checks = accuracy_checks = 0
+    disagreements = display_escapes = law_checks = accuracy_checks = deg_checks = lazy_cases = 0
     for i, c in enumerate(live):
         m = model[i] if model else None
         o = c["obs"]
@@ -831,6 +852,15 @@ def run(ctx):
             v = None
         if c["plan"][0] == "C":
             accuracy_checks += 1
+        rd = c.get("ref_deg")
+        if isinstance(rd, Fraction) and o.get("status") == 0 and not (c["fn"] == "tan" and abs(rd) > 100):
+            iv, _ = impl_number(o, c["wrap"])
+            deg_checks += 1
+            if iv is None or abs(iv[1] - rd) > TOL * max(1, abs(rd)):
+                rep.violation(dict(kind="inaccurate-degrees", fn=c["fn"]),
+                              "C16: %s = %s, the function of the true angle is %r" % (c["text"], o.get("value"), float(rd)), replay)
+        if any(LAZY_RE.match(a) or CHOOSE_RE.match(a) or "!" in a for a in c["args"]):
+            lazy_cases += 1
         if v is not None:
             disagreements += 1
             rep.violation(v[0], "C16: " + v[1], replay, found_input=v[2])
@@ -852,7 +882,7 @@ def run(ctx):
         traces_validated_against_impl=len(live), disagreements=disagreements, kernel_lane_cases=len([m for m in model if m is not None]) if model else 0,
         libm_calls_checked_against_reference=accuracy_checks, rounding_law_checks=law_checks, corpus=len(corpus),
         display_escapes_outside_c16=display_escapes,
-        interval_certified_points=len(certified)))
+        interval_certified_points=len(certified), degree_true_angle_checks=deg_checks, lazy_argument_cases=lazy_cases))
     rep.assumptions += [
         "libm/CPython float functions are external: accuracy validated per sample against mpmath (1e-12), not proved",
         "floats idealised as exact rationals in the model; value comparisons with floats are by tolerance 1e-12",
